@@ -34,6 +34,7 @@ type c08comp struct {
 type c08Case struct {
 	Kind  string    `json:"kind"`
 	Neg   bool      `json:"neg,omitempty"`
+	Plus  bool      `json:"plus,omitempty"` // an explicit plus sign in front (statement slots that take a sign)
 	Comps []c08comp `json:"comps,omitempty"`
 	D     int64     `json:"d,omitempty"`
 	Pos   int       `json:"pos,omitempty"`
@@ -44,6 +45,8 @@ func (c c08Case) spelling() string {
 	var b strings.Builder
 	if c.Neg {
 		b.WriteByte('-')
+	} else if c.Plus {
+		b.WriteByte('+')
 	}
 	for _, k := range c.Comps {
 		b.WriteString(k.N)
@@ -462,6 +465,10 @@ func c08run(r *ev.Run) {
 			for i := range full {
 				c := c08Case{Kind: "stmt", Neg: neg, Comps: []c08comp{full[i]}, Pos: pi}
 				do(c, "stmt "+fmt.Sprintf(c08positions[pi].tmpl, c.spelling()))
+				if !neg && c08positions[pi].signed {
+					c.Plus = true
+					do(c, "stmt "+fmt.Sprintf(c08positions[pi].tmpl, c.spelling()))
+				}
 			}
 			for i := range two {
 				for j := range two {
